@@ -146,7 +146,7 @@ def make_natives(state, sym):
     return nat
 
 
-def run_one(m, funcs, index, enums, expr_tokens, depth_sym, state):
+def run_one(m, funcs, index, enums, expr_tokens, depth_sym, state, walks=1):
     args = SliceRef([t if isinstance(t, RStr) else RStr(t) for t in expr_tokens])
     cfg = [m.call("<Config as Default>::default", [])]
     r = m.call("build_top_level_matcher", [args, Ptr(cfg, 0)])
@@ -157,7 +157,12 @@ def run_one(m, funcs, index, enums, expr_tokens, depth_sym, state):
     state["depth_first"] = bool(cfg[0].fields[1])
     box = r.fields[0]
     quit_cell = [False]
-    ret = m.call("process_dir", [RStr("r"), Ptr(cfg, 0), Opaque("deps"), Ptr(box.cell, 0), Ptr(quit_cell, 0)])
+    ret = 0
+    for _w in range(walks):
+        # do_find's loop: one process_dir per starting point with the same matcher (here the same starting point again: `find r r ...`)
+        r1 = m.call("process_dir", [RStr("r"), Ptr(cfg, 0), Opaque("deps"), Ptr(box.cell, 0), Ptr(quit_cell, 0)])
+        ret = r1 if r1 != 0 else ret
+        state["at_walk_end"].append((len(state["yielded"]), [list(r["argv"]) for r in state["runs"]]))
     return {"parse": "ok", "ret": ret, "quit": quit_cell[0]}
 
 
@@ -180,15 +185,17 @@ def explore(kind, funcs, index, enums):
             expr = ["-exec", "cmd", "fixed", "{}", "+", "-exec", "cmd2", "fixed", "{}", "+"]
         if kind == "multi_quit":
             expr = ["-exec", "cmd", "{}", "+", "-name", "d", "-quit"] if False else ["-exec", "cmd", "{}", "+", "-quit"]
+        if kind == "multi_roots_dir":
+            expr = ["-execdir", "cmd", "fixed", "{}", "+"]
     else:
         expr = ["-execdir" if kind == "single_dir" else "-exec", "cmd", RStr(sym=t1, vocab=TEMPLATES), RStr(sym=t2, vocab=TEMPLATES), ";", "-print"]
     t0 = time.time()
     while m.pending:
         m.reset_path(m.pending.pop())
-        state.update(wd={}, order=[], pos=0, yielded=[], skips=[], commands=[], ntry=0, verdicts=[], runs=[], depth_first=False)
-        state["all_fit"] = kind == "multi_two"
+        state.update(wd={}, order=[], pos=0, yielded=[], skips=[], commands=[], ntry=0, verdicts=[], runs=[], depth_first=False, at_walk_end=[])
+        state["all_fit"] = kind in ("multi_two", "multi_roots", "multi_roots_dir")
         try:
-            out = run_one(m, funcs, index, enums, expr, depth if kind in ("multi", "multi_dir", "single") else None, state)
+            out = run_one(m, funcs, index, enums, expr, depth if kind in ("multi", "multi_dir", "single") else None, state, walks=2 if kind.startswith("multi_roots") else 1)
         except RustPanic as e:
             res["violations"].append({"what": "panic: " + str(e)[:120]})
             res["paths"] += 1
@@ -227,6 +234,17 @@ def check_multi(kind, out, state, m):
             bad.append({"what": "-quit not propagated"})
         return bad
     fixed = ["fixed"]
+    if kind.startswith("multi_roots"):
+        # two starting points, one matcher: by the end of each walk exactly the paths visited so far have been delivered, each once, in order
+        arg = (lambda p: "./" + posixpath.basename(p)) if kind.endswith("_dir") else (lambda p: p)
+        for k, (nvis, argvs) in enumerate(state["at_walk_end"]):
+            got = [a for av in argvs for a in av[1:]]
+            if got != [arg(p) for p in visited[:nvis]] or any(av[:1] != fixed for av in argvs):
+                bad.append({"what": "after starting point %d the invocations so far received %r, expected %r (each visited path once, nothing carried over)" % (k + 1, argvs, [arg(p) for p in visited[:nvis]])})
+        failed = any(r["outcome"] != 0 for r in runs)
+        if (out["ret"] != 0) != failed:
+            bad.append({"what": "status %r although %s" % (out["ret"], "an invocation failed" if failed else "everything succeeded")})
+        return bad
     if kind == "multi_two":
         for prog in ("cmd", "cmd2"):
             mine = [r for r in runs if r["prog"] == prog]
@@ -336,7 +354,7 @@ def check_single(kind, out, state, m, t1, t2):
     return bad
 
 
-KINDS = ["multi", "multi_dir", "multi_quit", "single", "single_dir"]
+KINDS = ["multi", "multi_dir", "multi_quit", "multi_two", "multi_roots", "multi_roots_dir", "single", "single_dir"]
 
 if __name__ == "__main__":
     text = open(sys.argv[2]).read() if len(sys.argv) > 2 else None
